@@ -544,6 +544,18 @@ static bool compile_module_introspection(CG *cg, const char *name) {
 static void compile_expr(CG *cg, ASTNode *node);
 static void compile_stmt(CG *cg, ASTNode *node);
 
+/* Emit: if (local[x] <cmp> local[bound]) local[x] = local[bound] */
+static void emit_clamp_local(CG *cg, uint16_t x, NanoOpcode cmp, uint16_t bound) {
+    emit_op(cg, OP_LOAD_LOCAL, (int)x);
+    emit_op(cg, OP_LOAD_LOCAL, (int)bound);
+    emit_op(cg, cmp);
+    uint32_t jf_instr = cg->code_size;
+    uint32_t jf_off = emit_op(cg, OP_JMP_FALSE, (int32_t)0);
+    emit_op(cg, OP_LOAD_LOCAL, (int)bound);
+    emit_op(cg, OP_STORE_LOCAL, (int)x);
+    patch_jump(cg, jf_off + 1, jf_instr, cg->code_size);
+}
+
 /* Handle built-in function calls. Returns true if handled, false if not a builtin. */
 static bool compile_builtin_call(CG *cg, ASTNode *node) {
     const char *name = node->as.call.name;
@@ -778,9 +790,35 @@ static bool compile_builtin_call(CG *cg, ASTNode *node) {
         return true;
     }
     if (strcmp(name, "array_slice") == 0 && argc == 3) {
+        /* array_slice(arr, start, length), but ARR_SLICE takes (start, end): clamp
+         * start into [0, n] and length into [0, n - start] as the other backends
+         * do, then slice [start, start + length). */
         compile_expr(cg, args[0]); /* array */
         compile_expr(cg, args[1]); /* start */
-        compile_expr(cg, args[2]); /* end */
+        compile_expr(cg, args[2]); /* length */
+        uint16_t len = local_add(cg, "__slice_len__", 0);
+        emit_op(cg, OP_STORE_LOCAL, (int)len);
+        uint16_t start = local_add(cg, "__slice_start__", 0);
+        emit_op(cg, OP_STORE_LOCAL, (int)start);
+        emit_op(cg, OP_DUP);
+        emit_op(cg, OP_ARR_LEN);
+        uint16_t hi = local_add(cg, "__slice_hi__", 0);
+        emit_op(cg, OP_STORE_LOCAL, (int)hi);
+        emit_op(cg, OP_PUSH_I64, (int64_t)0);
+        uint16_t lo = local_add(cg, "__slice_lo__", 0);
+        emit_op(cg, OP_STORE_LOCAL, (int)lo);
+        emit_clamp_local(cg, start, OP_LT, lo);
+        emit_clamp_local(cg, start, OP_GT, hi);
+        emit_op(cg, OP_LOAD_LOCAL, (int)hi);   /* hi = n - start */
+        emit_op(cg, OP_LOAD_LOCAL, (int)start);
+        emit_op(cg, OP_SUB);
+        emit_op(cg, OP_STORE_LOCAL, (int)hi);
+        emit_clamp_local(cg, len, OP_LT, lo);
+        emit_clamp_local(cg, len, OP_GT, hi);
+        emit_op(cg, OP_LOAD_LOCAL, (int)start);
+        emit_op(cg, OP_LOAD_LOCAL, (int)start);
+        emit_op(cg, OP_LOAD_LOCAL, (int)len);
+        emit_op(cg, OP_ADD);
         emit_op(cg, OP_ARR_SLICE);
         return true;
     }
